@@ -874,7 +874,10 @@ def perturb_field(rng, sc, fld_res, fld_ref_vals, name, tags):
     thr = max(rel * abs(a), ab)
     how = rng.choice(["below", "below", "at", "above", "above", "gross"])
     if thr == 0.0:
-        delta = {"below": 0.0, "at": 0.0}.get(how, abs(a) * 2.0 ** -50 if a else 1e-300)
+        # exact comparison requested (e.g. an explicit `-rtol 0`): the smallest possible deviation (1 ulp) must
+        # already fail — a default tolerance silently substituted for the explicit zero would accept it
+        one_ulp = abs(math.nextafter(a, math.inf) - a) if a else 5e-324
+        delta = {"below": 0.0, "at": 0.0}.get(how, rng.choice([one_ulp, abs(a) * 2.0 ** -50 if a else 1e-300]))
     else:
         delta = thr * {"below": 0.25, "at": 1.0, "above": 4.0, "gross": 1e6}[how]
     nb = a + delta * rng.choice([1.0, -1.0])
